@@ -6,7 +6,7 @@ Utility functions for helping generate input problems.
 
 import random
 from dataclasses import dataclass
-from typing import Any, List, Optional, Set, Tuple, TypeVar, Union, cast
+from typing import Any, List, Optional, Tuple, TypeVar, Union, cast
 
 from .types import NumberType
 
@@ -19,6 +19,7 @@ except AttributeError:
 operators: List[str] = list("+-*")
 common_variables: List[str] = list("xyz")
 variables: List[str] = list("abcdfghjklmnopqrstuvwxyz")
+_common_variables = common_variables
 max_const: int = 12
 _pretty_numbers: bool = True
 
@@ -189,20 +190,13 @@ def get_rand_vars(
         exclude_vars = []
     if num_vars > 25:
         raise ValueError("out of range: there are only twenty-six variables")
-    rand_vars: Set[str] = set()
-    iters = 0
-    while len(rand_vars) < num_vars:
-        _rand = rand_var(common_variables)
-        if _rand not in exclude_vars:
-            rand_vars.add(_rand)
-        iters += 1
-        if iters > num_vars * 10:
-            raise ValueError(
-                f"Unable to fulfill request for {num_vars} random variables"
-            )
-    out = list(rand_vars)
-    random.shuffle(out)
-    return out
+    # Sample from the variables that are allowed, so that a request which can be
+    # satisfied never fails by chance (and the result does not depend on set order)
+    source = _common_variables if common_variables is True else variables
+    allowed = [v for v in source if v not in exclude_vars]
+    if num_vars > len(allowed):
+        raise ValueError(f"Unable to fulfill request for {num_vars} random variables")
+    return random.sample(allowed, num_vars)
 
 
 def gen_binomial_times_binomial(
@@ -452,7 +446,7 @@ def split_in_two_random(value: int) -> Tuple[int, int]:
 
 
 def gen_combine_terms_in_place(
-    min_terms: int = 16, max_terms: int = 26, easy: bool = True, powers: bool = False
+    min_terms: int = 16, max_terms: int = 25, easy: bool = True, powers: bool = False
 ) -> Tuple[str, int]:
     """Generate a problem that puts one pair of like terms next to each other
     somewhere inside a large tree of unlike terms.
